@@ -17,7 +17,7 @@ RULE = (
     "distinct_nontrivial = distinct (model cell, relation, quantity family) tuples where the perturbation really changed another "
     "individual's own terms (B) / the permutation was not the identity (D)"
 )
-REQUIRED = {"rel_B_terms": 60, "rel_B_sampler": 60, "rel_B_personalize": 40, "rel_C_terms": 40, "rel_D_terms": 40, "totals": 40, "rel_E": 2,
+REQUIRED = {"rel_B_terms": 60, "rel_B_sampler": 60, "rel_B_personalize": 40, "rel_C_terms": 40, "rel_D_terms": 40, "totals": 40, "rel_E": 3,
             "others_terms_really_changed": 30, "cohorts_with_unsorted_ids": 8, "other_individual_with_absurd_value": 5, "rel_B_reused_algorithm_object": 5}
 ASSUMPTIONS = [
     "B relations: bit-identity (two executions of the same code on the same shapes); C/D: 1e-6 relative + 1e-6 x largest per-individual term "
@@ -33,7 +33,7 @@ GRID = [("logistic", 2, 0, "gaussian-diagonal"), ("logistic", 3, 1, "gaussian-sc
 
 def shards(tier, seed):
     q = tier == "quick"
-    return [{"name": f"indep-{k}", "k": k, "n": 3 if q else 40, "budget_s": 170 if q else 1500, "do_E": k < (2 if q else 8)} for k in range(16)]
+    return [{"name": f"indep-{k}", "k": k, "n": 3 if q else 40, "budget_s": 170 if q else 1500, "do_E": k < (6 if q else 12)} for k in range(16)]
 
 
 def run_shard(spec, ctx):
@@ -315,7 +315,7 @@ def run_shard(spec, ctx):
                     ctx.count("personalize_skipped")
             if spec.get("do_E") and name == "scipy_minimize" and i == 0:
                 try:
-                    idxE, pE = perso(ds, name, n_jobs=2)
+                    idxE, pE = perso(ds, name, n_jobs=2 if (n % 2 or n < 3) else 3)  # a number of workers that does not divide the cohort
                     ctx.count("rel_E")
                     ctx.evaluated()
                     if idxE != idxA or any(not sh.bit_same(pA[pn], pE[pn]) for pn in pA):
